@@ -328,7 +328,7 @@ pub fn gen_table_plan(rng: &mut Prng, property: &str, thorough: bool) -> TablePl
             if rng.coin() {
                 variants.push(Variant::Channel(gen_channel(rng)));
             } else {
-                variants.push(Variant::Repeat(rng.range(1, 4)));
+                variants.push(Variant::Repeat(if rng.chance(1, 10) { rng.range(5, 12) } else { rng.range(1, 4) }));
             }
         }
     }
